@@ -1,2 +1,3 @@
 import SnowModel.Proofs.C10a
 import SnowModel.Proofs.C10b
+import SnowModel.Proofs.C10c
